@@ -27,7 +27,9 @@ import (
 type Case struct {
 	Schemas map[string]string `json:"schemas"`
 	Value   string            `json:"value"`
-	Entry   string            `json:"entry"` // visit | request | response | query | header | cookie | response-header, each also as <entry>-multi
+	// YAMLMaps (entry visit): the value's objects are map[any]any, as a YAML decoder delivers them
+	YAMLMaps bool   `json:"yaml_maps,omitempty"`
+	Entry    string `json:"entry"` // visit | request | response | query | header | cookie | response-header, each also as <entry>-multi
 }
 
 var noDetails = os.Getenv("VERIF_C19_NODETAILS") != ""
@@ -99,6 +101,25 @@ func buildDoc(c Case) (*openapi3.T, error) {
 	return kinx.Load(raw)
 }
 
+// yamlMaps hands the objects of a value over the way a YAML decoder does: map[any]any
+func yamlMaps(v any) any {
+	switch x := v.(type) {
+	case map[string]any:
+		out := make(map[any]any, len(x))
+		for k, e := range x {
+			out[k] = yamlMaps(e)
+		}
+		return out
+	case []any:
+		out := make([]any, len(x))
+		for i := range x {
+			out[i] = yamlMaps(x[i])
+		}
+		return out
+	}
+	return v
+}
+
 func reasonOnly(e *openapi3.SchemaError) string { return "E:" + e.SchemaField + ":" + e.Reason }
 
 func check(c Case) (o h.Outcome) {
@@ -127,10 +148,19 @@ func check(c Case) (o h.Outcome) {
 		if multi {
 			opts = append(opts, openapi3.MultiErrors())
 		}
-		if !o.Guarded("VisitJSON", func() { verr = root.VisitJSON(jv.Clone(v), opts...) }) {
+		if !noDetails {
+			// the message is assembled from the reasons alone
+			opts = append(opts, openapi3.SetSchemaErrorMessageCustomizer(reasonOnly))
+		}
+		var vv any = jv.Clone(v)
+		if c.YAMLMaps {
+			vv = yamlMaps(vv)
+			o.Class("value-as:yaml-maps")
+		}
+		if !o.Guarded("VisitJSON", func() { verr = root.VisitJSON(vv, opts...) }) {
 			return
 		}
-		fullTextMustBeClean = noDetails
+		fullTextMustBeClean = true
 	case "request", "query", "header", "cookie":
 		route, rerr := kinx.Route(doc, "/p", "POST")
 		if rerr != nil {
@@ -428,5 +458,5 @@ func gen(t *rapid.T) Case {
 	if multi {
 		entry += "-multi"
 	}
-	return Case{Schemas: schemas, Value: jv.Canon(v), Entry: entry}
+	return Case{Schemas: schemas, Value: jv.Canon(v), Entry: entry, YAMLMaps: strings.HasPrefix(entry, "visit") && rapid.Bool().Draw(t, "yamlmaps")}
 }
